@@ -1,19 +1,25 @@
 ----------------------------- MODULE LoadIOTrace -----------------------------
 (* Validates traces recorded from a real ModelLoader against LoadIO.tla.        *)
 (* Event: [op |-> "Input" | "Build", res, n (len(loader.statements) afterwards), *)
+(*         c (every statement the loader holds afterwards, written out in full), *)
 (*         twin (does a twin loader fed only the accepted texts build the same)] *)
 EXTENDS LoadIO, TraceBase
 
 TInit == Init /\ TBaseInit
 
+\* the statements an accepted text added: what the loader holds beyond what it held (nothing when the recorded content
+\* does not continue the old one - the clause `content` then names the difference)
+Added(e) == IF IsPrefixOf(content, e.c) THEN SubSeq(e.c, Len(content) + 1, Len(e.c)) ELSE <<>>
+
 Step(e) ==
-    CASE e.op = "Input" -> IF e.res = "accepted" THEN (e.n >= n /\ Accept(e.n - n)) \/ (e.n < n /\ Accept(0))
-                           ELSE RejectInput
+    CASE e.op = "Input" -> IF e.res = "accepted" THEN Accept(Added(e)) ELSE RejectInput
       [] e.op = "Build" -> IF e.res \in BuildOutcomes THEN Build(e.res) ELSE Build("built")
 
 Conform(e) == FirstBad(<<
     <<"outcome", res' = e.res>>,          \* only the documented outcomes exist in the specification
     <<"statements", n' = e.n>>,
+    \* the statements held before the call are there afterwards, each exactly as it was
+    <<"content", content' = e.c>>,
     <<"twin", e.twin>>,
     \* a rejected text is rejected by a loader that never saw the earlier rejected texts, too
     <<"history_independent", e.fresh>>
@@ -21,5 +27,5 @@ Conform(e) == FirstBad(<<
 
 TNext == /\ TEnabled
          /\ Step(Ev)
-         /\ Advance(Conform(Ev), <<res', n'>>)
+         /\ Advance(Conform(Ev), <<res', n', content'>>)
 =============================================================================
